@@ -243,7 +243,9 @@ func runC09(c *core.Ctx) error {
 	}); err != nil {
 		return err
 	}
-	c09EnumKeys(c, c.Rand.Fork(), c.Pick(150, 20000), "C09")
+	if err := c09EnumKeys(c, c.Rand.Fork(), c.Pick(150, 20000), "C09"); err != nil {
+		return err
+	}
 	nSchemas := c.Pick(5000, 250000)
 	cfg := core.DefaultSchemaCfg
 	var batch []c09Case
@@ -306,6 +308,9 @@ func runC09(c *core.Ctx) error {
 }
 
 func replayC09(c *core.Ctx, rp core.Replay) error {
+	if strings.HasPrefix(rp.Case, "enumkey.") {
+		return replayEnumKey(c, rp, "C09")
+	}
 	f := strings.Fields(rp.Case)
 	if len(f) < 3 || (f[0] != "schema.oftype" && f[0] != "schema.ofrepr") {
 		return fmt.Errorf("bad case")
@@ -346,9 +351,15 @@ func hasRepeatedKey(v core.Val) bool {
 // is a member name, at representation level the member's representation string).  Every way of supplying the key
 // (AssembleEntry, key assembler, AssignNode of a whole map, dag-json, dag-cbor) must accept exactly the valid keys of
 // the level; accepted maps read back with the keys of the level asked for.
-func c09EnumKeys(c *core.Ctx, r *core.Rand, n int, pfx string) {
+//
+//	(O) oracles        : acceptance, content at both levels, lookups vs iteration, foreign spellings (stated here in Go)
+//	(D) correspondence : == lean/IpldModel/Model/EnumKeyMap.lean (`enumkey.run`, `enumkey.lookup`), whose theorems are
+//	                     Props/C09enumkeys.lean (acceptance, validity, views build back) and Props/C08enumkeys.lean
+//	                     (lookups agree with iteration, foreign spellings, the views correspond)
+func c09EnumKeys(c *core.Ctx, r *core.Rand, n int, pfx string) error {
 	names := []string{"Yes", "No", "Maybe", "a", "b", "Red"}
 	reprs := []string{"y", "n", "m", "A", "B", "r", "Yes", "a"}
+	pend := &ekPending{}
 	for i := 0; i < n; i++ {
 		k := 2 + r.Intn(3)
 		perm := r.Perm(len(names))
@@ -362,39 +373,12 @@ func c09EnumKeys(c *core.Ctx, r *core.Rand, n int, pfx string) {
 				ren[m] = reprs[rp[j]]
 			}
 		}
-		// a representation string must not be ambiguous: no two members with the same representation
-		seen := map[string]bool{}
-		ok := true
-		reprOf := map[string]string{}
-		for _, m := range members {
-			rs := m
-			if x, has := ren[m]; has {
-				rs = x
-			}
-			if seen[rs] {
-				ok = false
-			}
-			seen[rs] = true
-			reprOf[m] = rs
-		}
+		ek, ok := newEkType(members, ren)
 		if !ok {
 			continue
 		}
-		ts, errs := schema.SpawnTypeSystem(schema.SpawnString("String"), schema.SpawnInt("Int"),
-			schema.SpawnEnum("E", members, ren), schema.SpawnMap("M", "E", "Int", false))
-		if errs != nil {
-			continue
-		}
-		tp := bindnode.Prototype(nil, ts.TypeByName("M"))
 		for _, lvl := range []string{"type", "repr"} {
-			valid := map[string]string{} // key text at this level → member
-			for _, m := range members {
-				if lvl == "type" {
-					valid[m] = m
-				} else {
-					valid[reprOf[m]] = m
-				}
-			}
+			valid := ek.validKeys(lvl)
 			cands := append(append([]string{}, names...), reprs...)
 			cands = append(cands, "zz", "")
 			key := cands[r.Intn(len(cands))]
@@ -408,120 +392,370 @@ func c09EnumKeys(c *core.Ctx, r *core.Rand, n int, pfx string) {
 			if second != "" && r.Bool() {
 				input.M = append(input.M, core.KV{K: []byte(second), V: core.Int(2)})
 			}
-			_, want := valid[key]
-			for _, route := range []string{"entry", "keyasm", "node", "json", "cbor"} {
-				caseID := fmt.Sprintf("c09.enumkeys %s %s members=%v renames=%v INPUT %s", lvl, route, members, ren, input.Term())
-				var np datamodel.NodePrototype = tp
-				if lvl == "repr" {
-					np = tp.Representation()
+			if r.Chance(1, 6) {
+				// a key supplied twice (the same text: under distinct representations no two texts name one member)
+				input.M = append(input.M, core.KV{K: input.M[r.Intn(len(input.M))].K, V: core.Int(3)})
+			}
+			ekCheck(c, pfx, ek, lvl, input, pend, true)
+		}
+		if len(pend.lines) >= 20000 {
+			if err := pend.flush(c, pfx); err != nil {
+				return err
+			}
+		}
+	}
+	return pend.flush(c, pfx)
+}
+
+// ekType: an enum with a string representation and the typed map keyed by it, bound by reflection.
+type ekType struct {
+	members []string
+	ren     schema.EnumRepresentation_String
+	reprOf  map[string]string
+	tp      schema.TypedPrototype
+}
+
+func newEkType(members []string, ren schema.EnumRepresentation_String) (*ekType, bool) {
+	// a representation string must not be ambiguous: no two members with the same representation
+	seen := map[string]bool{}
+	reprOf := map[string]string{}
+	for _, m := range members {
+		rs := m
+		if x, has := ren[m]; has {
+			rs = x
+		}
+		if seen[rs] {
+			return nil, false
+		}
+		seen[rs] = true
+		reprOf[m] = rs
+	}
+	ts, errs := schema.SpawnTypeSystem(schema.SpawnString("String"), schema.SpawnInt("Int"),
+		schema.SpawnEnum("E", members, ren), schema.SpawnMap("M", "E", "Int", false))
+	if errs != nil {
+		return nil, false
+	}
+	return &ekType{members: members, ren: ren, reprOf: reprOf, tp: bindnode.Prototype(nil, ts.TypeByName("M"))}, true
+}
+
+// validKeys: key text at this level → member
+func (ek *ekType) validKeys(lvl string) map[string]string {
+	valid := map[string]string{}
+	for _, m := range ek.members {
+		if lvl == "type" {
+			valid[m] = m
+		} else {
+			valid[ek.reprOf[m]] = m
+		}
+	}
+	return valid
+}
+
+// membersTok: the enum in the driver's line protocol (lean/Driver/EnumKey.lean)
+func (ek *ekType) membersTok() string {
+	var sb strings.Builder
+	sb.WriteString("MEMBERS")
+	for _, m := range ek.members {
+		fmt.Fprintf(&sb, " m:%x:%x", m, ek.reprOf[m])
+	}
+	return sb.String()
+}
+
+var ekRoutes = []string{"entry", "keyasm", "node", "json", "cbor"}
+
+// ekFeed supplies the entries of input, in order, to the builder of the level over one route.
+func ekFeed(ek *ekType, lvl, route string, input core.Val) (built datamodel.Node, err error, panicked bool, pv interface{}) {
+	var np datamodel.NodePrototype = ek.tp
+	if lvl == "repr" {
+		np = ek.tp.Representation()
+	}
+	err, panicked, pv = core.Catch(func() error {
+		nb := np.NewBuilder()
+		switch route {
+		case "entry":
+			if err := core.Assemble(nb, input, nil); err != nil {
+				return err
+			}
+		case "keyasm":
+			ma, err := nb.BeginMap(int64(len(input.M)))
+			if err != nil {
+				return err
+			}
+			for _, e := range input.M {
+				if err := ma.AssembleKey().AssignString(string(e.K)); err != nil {
+					return err
 				}
-				var built datamodel.Node
-				err, panicked, pv := core.Catch(func() error {
-					nb := np.NewBuilder()
-					switch route {
-					case "entry":
-						if err := core.Assemble(nb, input, nil); err != nil {
-							return err
-						}
-					case "keyasm":
-						ma, err := nb.BeginMap(int64(len(input.M)))
-						if err != nil {
-							return err
-						}
-						for _, e := range input.M {
-							if err := ma.AssembleKey().AssignString(string(e.K)); err != nil {
-								return err
-							}
-							if err := core.Assemble(ma.AssembleValue(), e.V, nil); err != nil {
-								return err
-							}
-						}
-						if err := ma.Finish(); err != nil {
-							return err
-						}
-					case "node":
-						bn, err := core.BuildBasic(input, nil)
-						if err != nil {
-							return err
-						}
-						if err := nb.AssignNode(bn); err != nil {
-							return err
-						}
-					case "json":
-						var sb strings.Builder
-						if !core.RawJSON(&sb, input) {
-							return nil
-						}
-						if err := dagjson.Decode(nb, strings.NewReader(sb.String())); err != nil {
-							return err
-						}
-					case "cbor":
-						if err := dagcbor.Decode(nb, bytes.NewReader(core.RawCBOR(nil, input))); err != nil {
-							return err
+				if err := core.Assemble(ma.AssembleValue(), e.V, nil); err != nil {
+					return err
+				}
+			}
+			if err := ma.Finish(); err != nil {
+				return err
+			}
+		case "node":
+			bn, err := core.BuildBasic(input, nil)
+			if err != nil {
+				return err
+			}
+			if err := nb.AssignNode(bn); err != nil {
+				return err
+			}
+		case "json":
+			var sb strings.Builder
+			if !core.RawJSON(&sb, input) {
+				return nil
+			}
+			if err := dagjson.Decode(nb, strings.NewReader(sb.String())); err != nil {
+				return err
+			}
+		case "cbor":
+			if err := dagcbor.Decode(nb, bytes.NewReader(core.RawCBOR(nil, input))); err != nil {
+				return err
+			}
+		}
+		built = nb.Build()
+		return nil
+	})
+	return
+}
+
+// ekPending: driver lines waiting for the model's answer, with the implementation's observation of each.
+type ekPending struct {
+	lines []string
+	index map[string]int // line → position in lines
+	obs   []ekObs
+}
+
+type ekObs struct {
+	line, impl, detail string
+}
+
+func (p *ekPending) add(line, impl, detail string) {
+	if p.index == nil {
+		p.index = map[string]int{}
+	}
+	if _, ok := p.index[line]; !ok {
+		p.index[line] = len(p.lines)
+		p.lines = append(p.lines, line)
+	}
+	p.obs = append(p.obs, ekObs{line, impl, detail})
+}
+
+func (p *ekPending) flush(c *core.Ctx, pfx string) error {
+	outs, err := core.RunDriver(p.lines)
+	if err != nil {
+		return err
+	}
+	for _, o := range p.obs {
+		model := outs[p.index[o.line]]
+		if strings.HasPrefix(model, "bad-") {
+			return fmt.Errorf("driver refused case %q: %s", o.line, model)
+		}
+		if model != o.impl {
+			c.Fail(pfx+"/corr-enum-keyed-map", core.Replay{Kind: "correspondence", Case: o.line, Impl: o.impl, Model: model, Detail: o.detail})
+		}
+	}
+	c.Trace(len(p.obs))
+	*p = ekPending{}
+	return nil
+}
+
+// ekLookupObs: what LookupByString(key) on a view says, in the model's vocabulary.
+func ekLookupObs(view datamodel.Node, key string) string {
+	var out string
+	_, panicked, pv := core.Catch(func() error {
+		x, err := view.LookupByString(key)
+		if err != nil || x == nil {
+			out = "notfound"
+		} else {
+			out = "found " + termOfOrErrSafe(x, nil)
+		}
+		return nil
+	})
+	if panicked {
+		return fmt.Sprintf("panic %v", pv)
+	}
+	return out
+}
+
+// ekCheck: one (enum, level, input) over every route: the oracles (when stats is set: counted as generated cases) and the
+// implementation's observations queued for the model correspondence.
+func ekCheck(c *core.Ctx, pfx string, ek *ekType, lvl string, input core.Val, pend *ekPending, stats bool) {
+	valid := ek.validKeys(lvl)
+	want := true
+	seenKey := map[string]bool{}
+	for _, e := range input.M {
+		if _, ok := valid[string(e.K)]; !ok || seenKey[string(e.K)] {
+			want = false
+		}
+		seenKey[string(e.K)] = true
+	}
+	runLine := "enumkey.run " + lvl + " " + ek.membersTok() + " INPUT " + input.Term()
+	// the texts looked up in both views of an accepted map: every spelling of every member at either level (so: each key
+	// of each view, members that are not in the map, the other level's spellings) and two texts that spell nothing
+	var lookups []string
+	seenL := map[string]bool{}
+	for _, m := range ek.members {
+		for _, t := range []string{m, ek.reprOf[m]} {
+			if !seenL[t] {
+				seenL[t] = true
+				lookups = append(lookups, t)
+			}
+		}
+	}
+	for _, t := range []string{"zz", ""} {
+		if !seenL[t] {
+			lookups = append(lookups, t)
+		}
+	}
+	for _, route := range ekRoutes {
+		caseID := fmt.Sprintf("c09.enumkeys %s %s members=%v renames=%v INPUT %s", lvl, route, ek.members, ek.ren, input.Term())
+		built, err, panicked, pv := ekFeed(ek, lvl, route, input)
+		if stats {
+			c.Count(caseID, true)
+			c.Dist("enum-keyed-map:" + lvl + ":" + route)
+		}
+		if panicked {
+			c.Fail(pfx+"/panic", core.Replay{Kind: "oracle", Case: caseID, Impl: fmt.Sprint(pv)})
+			continue
+		}
+		got := err == nil
+		if !got {
+			pend.add(runLine, "rejected", fmt.Sprintf("route=%s error %T", route, err))
+		}
+		if got != want {
+			c.Fail(pfx+"/enum-keyed-map-acceptance", core.Replay{Kind: "oracle", Case: caseID, Impl: fmt.Sprintf("accepted=%v (%v)", got, err), Expected: fmt.Sprintf("accepted=%v", want),
+				Detail: "a typed map keyed by an enum accepts exactly the members' names (type level) / representation strings (representation level), each at most once"})
+			if got && built != nil {
+				// the model still has to agree with what was built
+				if tn, ok := built.(schema.TypedNode); ok {
+					pend.add(runLine, "accepted "+termOfOrErrSafe(tn, nil)+" | "+termOfOrErrSafe(tn.Representation(), nil), "route="+route)
+				}
+			}
+			continue
+		}
+		if got && built != nil {
+			// read back at both levels
+			tn := built.(schema.TypedNode)
+			wantT, wantR := core.Map(), core.Map()
+			for _, e := range input.M {
+				m := valid[string(e.K)]
+				wantT.M = append(wantT.M, core.KV{K: []byte(m), V: e.V})
+				wantR.M = append(wantR.M, core.KV{K: []byte(ek.reprOf[m]), V: e.V})
+			}
+			gt, gr := termOfOrErrSafe(tn, nil), termOfOrErrSafe(tn.Representation(), nil)
+			pend.add(runLine, "accepted "+gt+" | "+gr, "route="+route)
+			if gt != wantT.Term() || gr != wantR.Term() {
+				c.Fail(pfx+"/enum-keyed-map-content", core.Replay{Kind: "oracle", Case: caseID, Impl: gt + " | " + gr, Expected: wantT.Term() + " | " + wantR.Term()})
+			}
+			// reading by key: every lookup form agrees with iteration at each level, and a text that is not a key OF
+			// THAT LEVEL (the name of a renamed member at representation level, its representation at type level) is not found
+			for vi, view := range []datamodel.Node{tn, tn.Representation()} {
+				if p := consistency(view, ""); p != "" {
+					c.Fail(pfx+"/enum-keyed-map-lookup", core.Replay{Kind: "oracle", Case: caseID, Impl: p, Expected: "lookups by key agree with iteration", Detail: []string{"type-level view", "representation view"}[vi]})
+				}
+				for _, m := range ek.members {
+					foreign := ek.reprOf[m]
+					if vi == 1 {
+						foreign = m
+					}
+					isKey := false
+					for _, m2 := range ek.members {
+						if vi == 0 && m2 == foreign || vi == 1 && ek.reprOf[m2] == foreign {
+							isKey = true
 						}
 					}
-					built = nb.Build()
-					return nil
-				})
-				c.Count(caseID, true)
-				c.Dist("enum-keyed-map:" + lvl + ":" + route)
-				if panicked {
-					c.Fail(pfx+"/panic", core.Replay{Kind: "oracle", Case: caseID, Impl: fmt.Sprint(pv)})
-					continue
-				}
-				got := err == nil
-				if got != want {
-					c.Fail(pfx+"/enum-keyed-map-acceptance", core.Replay{Kind: "oracle", Case: caseID, Impl: fmt.Sprintf("accepted=%v (%v)", got, err), Expected: fmt.Sprintf("accepted=%v", want),
-						Detail: "a typed map keyed by an enum accepts exactly the members' names (type level) / representation strings (representation level)"})
-					continue
-				}
-				if got && built != nil {
-					// read back at both levels
-					tn := built.(schema.TypedNode)
-					wantT, wantR := core.Map(), core.Map()
-					for _, e := range input.M {
-						m := valid[string(e.K)]
-						wantT.M = append(wantT.M, core.KV{K: []byte(m), V: e.V})
-						wantR.M = append(wantR.M, core.KV{K: []byte(reprOf[m]), V: e.V})
+					if isKey {
+						continue
 					}
-					gt, gr := termOfOrErrSafe(tn, nil), termOfOrErrSafe(tn.Representation(), nil)
-					if gt != wantT.Term() || gr != wantR.Term() {
-						c.Fail(pfx+"/enum-keyed-map-content", core.Replay{Kind: "oracle", Case: caseID, Impl: gt + " | " + gr, Expected: wantT.Term() + " | " + wantR.Term()})
+					var found bool
+					_, panicked, pv := core.Catch(func() error {
+						x, err := view.LookupByString(foreign)
+						found = err == nil && x != nil
+						return nil
+					})
+					if panicked || found {
+						c.Fail(pfx+"/enum-keyed-map-lookup", core.Replay{Kind: "oracle", Case: caseID, Impl: fmt.Sprintf("LookupByString(%q) found=%v panic=%v", foreign, found, pv), Expected: "not found",
+							Detail: []string{"type-level view", "representation view"}[vi] + ": the text is the other level's spelling of a member"})
 					}
-					// reading by key: every lookup form agrees with iteration at each level, and a text that is not a key OF
-					// THAT LEVEL (the name of a renamed member at representation level, its representation at type level) is not found
-					for vi, view := range []datamodel.Node{tn, tn.Representation()} {
-						if p := consistency(view, ""); p != "" {
-							c.Fail(pfx+"/enum-keyed-map-lookup", core.Replay{Kind: "oracle", Case: caseID, Impl: p, Expected: "lookups by key agree with iteration", Detail: []string{"type-level view", "representation view"}[vi]})
-						}
-						for _, m := range members {
-							foreign := reprOf[m]
-							if vi == 1 {
-								foreign = m
-							}
-							isKey := false
-							for _, m2 := range members {
-								if vi == 0 && m2 == foreign || vi == 1 && reprOf[m2] == foreign {
-									isKey = true
-								}
-							}
-							if isKey {
-								continue
-							}
-							var found bool
-							_, panicked, pv := core.Catch(func() error {
-								x, err := view.LookupByString(foreign)
-								found = err == nil && x != nil
-								return nil
-							})
-							if panicked || found {
-								c.Fail(pfx+"/enum-keyed-map-lookup", core.Replay{Kind: "oracle", Case: caseID, Impl: fmt.Sprintf("LookupByString(%q) found=%v panic=%v", foreign, found, pv), Expected: "not found",
-									Detail: []string{"type-level view", "representation view"}[vi] + ": the text is the other level's spelling of a member"})
-							}
-						}
+				}
+				// the model's lookups (the value is named by its type-level view, which the content oracle has just compared)
+				if gt == wantT.Term() {
+					for _, t := range lookups {
+						line := fmt.Sprintf("enumkey.lookup %s %s VAL %s KEY s%x", []string{"type", "repr"}[vi], ek.membersTok(), gt, t)
+						pend.add(line, ekLookupObs(view, t), "built at "+lvl+" level over route="+route+" from "+input.Term())
 					}
 				}
 			}
 		}
 	}
+}
+
+// replayEnumKey re-executes one `enumkey.run` / `enumkey.lookup` correspondence case on the implementation and the model.
+func replayEnumKey(c *core.Ctx, rp core.Replay, pfx string) error {
+	f := strings.Fields(rp.Case)
+	if len(f) < 4 || (f[0] != "enumkey.run" && f[0] != "enumkey.lookup") || f[2] != "MEMBERS" || (f[1] != "type" && f[1] != "repr") {
+		return fmt.Errorf("bad case")
+	}
+	var members []string
+	ren := schema.EnumRepresentation_String{}
+	i := 3
+	for ; i < len(f) && strings.HasPrefix(f[i], "m:"); i++ {
+		parts := strings.Split(f[i], ":")
+		if len(parts) != 3 {
+			return fmt.Errorf("bad member %q", f[i])
+		}
+		var nm, rs []byte
+		if _, err := fmt.Sscanf(parts[1]+" ", "%x", &nm); err != nil && parts[1] != "" {
+			return err
+		}
+		if _, err := fmt.Sscanf(parts[2]+" ", "%x", &rs); err != nil && parts[2] != "" {
+			return err
+		}
+		members = append(members, string(nm))
+		if string(rs) != string(nm) {
+			ren[string(nm)] = string(rs)
+		}
+	}
+	ek, ok := newEkType(members, ren)
+	if !ok {
+		return fmt.Errorf("not a type system: members=%v renames=%v", members, ren)
+	}
+	pend := &ekPending{}
+	if f[0] == "enumkey.run" {
+		if i >= len(f) || f[i] != "INPUT" {
+			return fmt.Errorf("bad case")
+		}
+		input, err := core.ParseTermString(strings.Join(f[i+1:], " "))
+		if err != nil {
+			return err
+		}
+		ekCheck(c, pfx, ek, f[1], input, pend, false)
+		return pend.flush(c, pfx)
+	}
+	if i >= len(f) || f[i] != "VAL" || len(f) < i+4 || f[len(f)-2] != "KEY" || !strings.HasPrefix(f[len(f)-1], "s") {
+		return fmt.Errorf("bad case")
+	}
+	val, err := core.ParseTermString(strings.Join(f[i+1:len(f)-2], " "))
+	if err != nil {
+		return err
+	}
+	var key []byte
+	if h := f[len(f)-1][1:]; h != "" {
+		if _, err := fmt.Sscanf(h, "%x", &key); err != nil {
+			return err
+		}
+	}
+	for _, route := range ekRoutes {
+		built, err, panicked, pv := ekFeed(ek, "type", route, val)
+		if panicked || err != nil || built == nil {
+			return fmt.Errorf("the value of the case cannot be built at type level over route %s: %v %v", route, err, pv)
+		}
+		view := datamodel.Node(built)
+		if f[1] == "repr" {
+			view = built.(schema.TypedNode).Representation()
+		}
+		pend.add(rp.Case, ekLookupObs(view, string(key)), "route="+route)
+	}
+	return pend.flush(c, pfx)
 }
